@@ -1327,7 +1327,10 @@ class ContactHandler(Messenger, dbus.service.Object):
 
             self._modulate_tx_seg_size(delta_b, delta_t)
 
-        item = self._tx_map[transfer_id]
+        item = self._tx_map.get(transfer_id)
+        if item is None:
+            # not a transfer of this session (any more)
+            raise RejectError(messages.RejectMsg.Reason.UNEXPECTED)
         item.ack_length = length
         if flags & messages.TransferSegment.Flag.END:
             if not self._do_send_ack_final:
